@@ -1458,16 +1458,22 @@ class Model(Object):
                 reaction.id = f"{prefix_existing}{reaction.id}"
         new_model.add_reactions(new_reactions)
         interface = new_model.problem
+        # Variables and constraints that encode the reactions and metabolites of
+        # `right` are not custom ones: they were added above together with the
+        # reactions (unless those reactions were ignored as already existing).
+        right_reaction_vars = set()
+        for reaction in right.reactions:
+            right_reaction_vars.update((reaction.id, reaction.reverse_id))
         new_vars = [
             interface.Variable.clone(v)
             for v in right.variables
-            if v.name not in new_model.variables
+            if v.name not in new_model.variables and v.name not in right_reaction_vars
         ]
         new_model.add_cons_vars(new_vars)
         new_cons = [
             interface.Constraint.clone(c, model=new_model.solver)
             for c in right.constraints
-            if c.name not in new_model.constraints
+            if c.name not in new_model.constraints and c.name not in right.metabolites
         ]
         new_model.add_cons_vars(new_cons, sloppy=True)
         new_model.objective = dict(
